@@ -72,6 +72,9 @@ B_OPS = {
     'set-invalid': ('set', dict(name='b', options={'nosuchkey': 1})),
     'incr-unknown': ('incr', dict(name='nosuch', nb=1)),
     'status': ('status', dict(name='a')),
+    # the same requests sent as casts (no reply is ever sent for them)
+    'incr-cast': ('incr', dict(name='b', nb=1)),
+    'stop-cast': ('stop', dict(name='b')),
 }
 EXCLUSIVE_VALID_B = {'incr', 'decr', 'stop', 'restart', 'reload', 'start', 'add', 'rm', 'set', 'stop-all', 'quit'}
 
@@ -110,6 +113,8 @@ def plan(tier, seed):
             out.append({'chain': i, 'seed': seed})
     for i in range(6 if tier == 'quick' else 60):
         out.append({'kind': 'circus-section', 'seed': seed, 'idx': i})
+    for i in range(32 if tier == 'quick' else 320):
+        out.append({'kind': 'long-gap', 'seed': seed, 'idx': i})
     return out
 
 
@@ -212,6 +217,9 @@ def run_case(spec):
     if spec.get('kind') == 'circus-section':
         circus_section(spec, res)
         return res
+    if spec.get('kind') == 'long-gap':
+        long_gap(spec, res)
+        return res
     if 'B' in spec:                     # concrete (replay)
         h = spec['h']
         ref = run_pair(h, spec['A'], None, None, res)
@@ -299,7 +307,7 @@ def _pair(w, h, aname, bname, at, res, ref, out):
                 return
             info['slot'] = w.arb._exclusive_running_command
             cmd, props = B_OPS[bname]
-            info['mid'] = w.req(cmd, **dict(props))
+            info['mid'] = w.req(cmd, _cast=bname.endswith('-cast'), **dict(props))
         if at == 0:
             pass
         else:
@@ -353,6 +361,19 @@ def _pair(w, h, aname, bname, at, res, ref, out):
     rb = w.reply(info['mid'])
     slot = info['slot']
     key = (aname, bname, at, (rb or {}).get('status'), slot)
+    if bname.endswith('-cast'):
+        # no reply to look at: arriving while the slot is held it must have no effect at all
+        if rb is not None:
+            res.violation('C10/cast-answered', '%s (a cast) got a reply %s' % (bname, str(rb)[:100]))
+        if slot is not None:
+            res.obs['casts_dispatched_while_slot_held'] += 1
+            res.nontrivial(repr(key))
+            if ref is not None and not quitting and ref['snap'] is not None and snap != ref['snap']:
+                res.violation('C10/refused-but-effect:%s' % bname,
+                              '%s arrived while %s was in flight (poll %d), yet the final state differs from the run '
+                              'without it' % (bname, slot, at), diff=_diff(ref['snap'], snap))
+            res.obs['differential_comparisons'] += 1
+        return
     if rb is None:
         rec = w.sent[info['mid']]
         if rec.get('escaped') or not quitting:
@@ -394,6 +415,65 @@ def _diff(a, b):
     while i < min(len(ja), len(jb)) and ja[i] == jb[i]:
         i += 1
     return {'ref': ja[max(0, i - 150):i + 150], 'run': jb[max(0, i - 150):i + 150]}
+
+
+def long_gap(spec, res):
+    """the same operation twice with a long quiet period in between (minutes of virtual time), the second one slow:
+    nothing left over from the first one may give the slot away while the second one runs"""
+    rnd = rng_for(spec['seed'], 'C10-gap', spec['idx'])
+    T = [30, 60, 120, 300, 600, 900, 1800, 3600][spec['idx'] % 8]
+    gap = T - rnd.uniform(0.5, 7.5)
+    op = rnd.choice(['stop', 'restart', 'reload', 'stop'])
+    h = {'kill_latency': 0.0,
+         'watchers': [{'name': 'a', 'numprocesses': 2, 'graceful_timeout': 8.0, 'beh': [{'15': ['ignore']}]},
+                      {'name': 'b', 'numprocesses': 1, 'graceful_timeout': 0.1},
+                      {'name': 'p', 'numprocesses': 1, 'graceful_timeout': 0.1}]}
+    w = simhist.new_world(h)
+    w.nest = {'n': 0, 'max': 0, 'entered': 0, 'overlaps': [], 'open': [], 'tokens': [], 'work': [], 'orphans': []}
+    nv = len(res.viol)
+
+    @gen.coroutine
+    def go():
+        yield simhist.boot(w, h)
+        yield w.settle(30)
+        t0 = w.clock.now
+        yield w.call(op, name='a', waiting=True)
+        yield w.settle(60)
+        if op == 'stop':
+            yield w.call('start', name='a', waiting=True)
+            yield w.settle(60)
+        yield w.advance(max(0.0, gap - (w.clock.now - t0)))
+        w.req(op, name='a')                      # the slow one: 8 s of grace for two stubborn workers
+        accepted = []
+        for i in range(24):
+            yield w.advance(0.4)
+            held = w.arb._exclusive_running_command
+            mid = w.req('incr', name='b', nb=1)
+            rb = w.reply(mid)
+            res.obs['requests_during_the_second_operation'] += 1
+            if held is None:
+                break
+            if isinstance(rb, dict) and rb.get('status') == 'ok':
+                accepted.append((round(w.clock.now - t0, 2), held))
+        yield w.settle(120)
+        if w.stalled is not None:
+            res.obs['stalled(C05 owns)'] += 1
+            return
+        if accepted:
+            res.violation('C10/accepted-inside:incr[long-gap]', 'second %s of a, %.1f s after the first one: incr b was '
+                          'answered ok at %s (seconds since the first %s, slot holder)' % (op, gap, accepted[:3], op))
+        if w.nest['overlaps']:
+            res.violation('C10/two-exclusive-in-flight', 'exclusive entry %s entered while %s in flight (second %s, '
+                          '%.1f s after the first)' % (w.nest['overlaps'][0] + (op, gap)))
+        res.obs['long_gap_cases'] += 1
+        res.nontrivial(repr(('long-gap', op, T)))
+    try:
+        w.run(go)
+        for v in res.viol[nv:]:
+            v['spec'] = dict(spec)
+    finally:
+        w.close()
+    res.sample = {'case': 'same operation twice, long gap', 'op': op, 'gap_s': round(gap, 1)}
 
 
 def circus_section(spec, res):
